@@ -233,8 +233,15 @@ def rule_cl_all(ctx):
                             continue
                         ncalls += 1
                         pd, ps = c.arg_path(di), c.arg_path(si)
+                        elems = list(srcp.elems)
+                        sd = cb.source_def(c.args[si])
+                        if sd is not None and sd[1] == "call" and ctx.call_at(cb, sd[0].bb).name in (OPT + "as_ref", OPT + "as_mut") \
+                                and len(elems) >= 3 and elems[0][0] == "downcast" and elems[1][0] == "field" and elems[2] == ("deref",):
+                            # handed over as Option<&T> made from &Option<T>: `(x.as_ref() as Some).0.*` is `((*x) as Some).0`
+                            ps = ctx.call_at(cb, sd[0].bb).arg_path(0)
+                            elems = [("deref",), elems[0], elems[1]] + elems[3:]
                         if ps is not None:
-                            for e in srcp.elems:
+                            for e in elems:
                                 ps = ps.extend(e)
                         check_pair(cb, pd, ps, c.where(), "%s:call" % cb.path)
                 if not ncalls:
